@@ -164,10 +164,7 @@ func (w *World) checkCrashImage(image []byte, exp *RState, what string, post boo
 			return nil
 		}
 	}
-	if w.CBMask&CBFramed != 0 {
-		cb.AfterItemRead = unframeAfterRead
-		cb.BeforeItemWrite = func(c *gkvlite.Collection, i *gkvlite.Item) (*gkvlite.Item, error) { return FrameItem(i), nil }
-	}
+	w.imageCallbacks(&cb, true)
 	st, err := gkvlite.NewStoreEx(f, cb)
 	// second opinion on "which root record is the last complete one"
 	dr := FindLastRoot(image, int64(len(image)))
